@@ -236,6 +236,15 @@ func genBlocking() {
 	b.WriteString(fmt.Sprintf("def peerDoneDeferBeforeReturns : Bool := %v\n", peerDoneDeferFirst(files["peer/peer.go"])))
 	b.WriteString("/-- peer.Run: `close(peer.Done)` is the FIRST statement of that deferred block (nothing that can return or block precedes it) -/\n")
 	b.WriteString(fmt.Sprintf("def peerDoneCloseFirst : Bool := %v\n", peerDoneCloseFirst(files["peer/peer.go"])))
+	runs, exits := addPeerCaseFacts(f)
+	b.WriteString("/-- tor.handleEvent, case peer.TorAddPeer: `go peer.Run(c.Peer, …)` is a statement of the case body itself (unconditional) -/\n")
+	b.WriteString(fmt.Sprintf("def addPeerRunsPeer : Bool := %v\n", runs))
+	b.WriteString("/-- … and this many return/break/goto/panic statements of that case precede it -/\n")
+	b.WriteString(fmt.Sprintf("def addPeerExitsBeforeRun : Nat := %d\n", exits))
+	b.WriteString("/-- Torrent.NewPeer: every return statement (its results, is a `conn.Close()` among the statements before it in its block) -/\n")
+	b.WriteString("def newPeerReturns : List (String × Bool) := [" + strings.Join(newPeerReturns(f), ", ") + "]\n")
+	b.WriteString("/-- peer.Run: its first statement that can matter on exit is `defer func(){ … peer.conn.Close() … }()`, registered before any return -/\n")
+	b.WriteString(fmt.Sprintf("def peerRunClosesConnFirst : Bool := %v\n", peerRunClosesConnFirst(files["peer/peer.go"])))
 	b.WriteString("end Storrent.Gen\n")
 	writeIfChanged("Blocking.lean", b.String())
 }
@@ -353,6 +362,124 @@ func peerDoneCloseFirst(f *ast.File) bool {
 		}
 	}
 	return n == 1 && ok
+}
+
+// addPeerCaseFacts: in handleEvent's `case peer.TorAddPeer:` is `go peer.Run(...)` a top-level
+// statement of the case body, and how many statements that leave the case precede it.
+func addPeerCaseFacts(f *ast.File) (runs bool, exits int) {
+	fd := findFunc(f, "handleEvent")
+	if fd == nil {
+		return false, 99
+	}
+	var clause *ast.CaseClause
+	ast.Inspect(fd.Body, func(n ast.Node) bool {
+		if cc, ok := n.(*ast.CaseClause); ok && clause == nil {
+			for _, e := range cc.List {
+				if src(e) == "peer.TorAddPeer" {
+					clause = cc
+				}
+			}
+		}
+		return true
+	})
+	if clause == nil {
+		return false, 99
+	}
+	var goPos token.Pos
+	for _, st := range clause.Body {
+		if g, ok := st.(*ast.GoStmt); ok && src(g.Call.Fun) == "peer.Run" {
+			goPos = g.Pos()
+			runs = true
+			break
+		}
+	}
+	if !runs {
+		return false, 99
+	}
+	for _, st := range clause.Body {
+		ast.Inspect(st, func(n ast.Node) bool {
+			switch n := n.(type) {
+			case *ast.FuncLit:
+				return false
+			case *ast.ReturnStmt:
+				if n.Pos() < goPos {
+					exits++
+				}
+			case *ast.BranchStmt:
+				if n.Pos() < goPos && (n.Tok == token.BREAK || n.Tok == token.GOTO || n.Tok == token.FALLTHROUGH) {
+					exits++
+				}
+			case *ast.CallExpr:
+				if id, ok := n.Fun.(*ast.Ident); ok && id.Name == "panic" && n.Pos() < goPos {
+					exits++
+				}
+			}
+			return true
+		})
+	}
+	return runs, exits
+}
+
+// newPeerReturns: every return of Torrent.NewPeer with whether `conn.Close()` is one of the
+// statements preceding it in its own block.
+func newPeerReturns(f *ast.File) []string {
+	fd := findMethod(f, "Torrent", "NewPeer")
+	if fd == nil {
+		return []string{"(\"unknown\", false)"}
+	}
+	var out []string
+	var walkBlock func(list []ast.Stmt)
+	walkBlock = func(list []ast.Stmt) {
+		closed := false
+		for _, st := range list {
+			if es, ok := st.(*ast.ExprStmt); ok && src(es.X) == "conn.Close()" {
+				closed = true
+			}
+			if r, ok := st.(*ast.ReturnStmt); ok {
+				var rs []string
+				for _, x := range r.Results {
+					rs = append(rs, oneLine(src(x)))
+				}
+				out = append(out, fmt.Sprintf("(%s, %v)", leanStr(strings.Join(rs, ", ")), closed))
+			}
+			switch s := st.(type) {
+			case *ast.IfStmt:
+				walkBlock(s.Body.List)
+				if eb, ok := s.Else.(*ast.BlockStmt); ok {
+					walkBlock(eb.List)
+				}
+			case *ast.SelectStmt:
+				for _, c := range s.Body.List {
+					walkBlock(c.(*ast.CommClause).Body)
+				}
+			case *ast.BlockStmt:
+				walkBlock(s.List)
+			}
+		}
+	}
+	walkBlock(fd.Body.List)
+	return out
+}
+
+// peerRunClosesConnFirst: the first defer of peer.Run is a function literal that calls
+// peer.conn.Close(), and no return statement of Run precedes it.
+func peerRunClosesConnFirst(f *ast.File) bool {
+	fd := findFunc(f, "Run")
+	if fd == nil {
+		return false
+	}
+	for _, st := range fd.Body.List {
+		switch s := st.(type) {
+		case *ast.DeferStmt:
+			fl, ok := s.Call.Fun.(*ast.FuncLit)
+			return ok && strings.Contains(src(fl.Body), "peer.conn.Close()")
+		case *ast.AssignStmt, *ast.ExprStmt, *ast.DeclStmt:
+			continue
+		default:
+			return false // something that may return comes first
+		}
+	}
+	return false
 }
 
 func init() { extraGens = append(extraGens, genBlocking) }
